@@ -62,6 +62,7 @@ type ProofOpts struct {
 	Thorough  bool
 	Verbose   bool
 	Sim       bool
+	SimAs     string // variant override for relative contracts
 	Alloc     bool // activate the @alloc clauses (ghost allocation counter bounds)
 	Rel       bool // also prove independence from the scratch parameters (2-safety)
 	OnlyKinds map[string]bool // restrict the check pass to these obligation kinds (no inference)
@@ -125,7 +126,11 @@ func (eng *Engine) NewFuncProof(fn *ssa.Function, fc *FuncContract, opts ProofOp
 		if cfg, err := parseSimCfg(fc); err == nil && cfg != nil {
 			ex.simVariant = cfg.Variant
 			ex.simLimit = cfg.Limit
+			if opts.SimAs != "" && fc.SimOpts["init"] == "none" {
+				ex.simVariant, ex.simLimit = opts.SimAs, -1
+			}
 			ex.simFast = cfg.Fast
+			ex.simNum = cfg.Num
 		}
 	}
 	fp := &FuncProof{eng: eng, ex: ex, fn: fn, fc: fc, opts: opts,
